@@ -41,6 +41,12 @@ def cases(tier, seed):
         for r in range(rep):
             out.append({"kind": "spectrum", "cls": "spectrum:" + pat, "pat": pat, "idx": idx, "seed": seed, "maxn": maxn})
             idx += 1
+    # size ladder beyond every plausible blocking threshold (panel widths 8 / 16 / 32, sizes n with n-1 or n-2 a multiple of 16)
+    ladder = [9, 12, 16, 17, 18, 20, 24, 33] if tier == "quick" else list(range(9, 36)) + [40, 48, 49, 50, 64, 65, 66]
+    for k, n in enumerate(ladder):
+        for pat in (PATTERNS[k % len(PATTERNS)], "simple"):
+            out.append({"kind": "spectrum", "cls": "spectrum:" + pat, "pat": pat, "idx": idx, "seed": seed, "maxn": maxn, "n": n})
+            idx += 1
     # exact power-of-two scalings into the range where squares of the entries under- or overflow
     for pat in PATTERNS:
         for p2 in (-1000, -900, -600, -540, -520, -400, 400, 500):
@@ -217,6 +223,9 @@ def judge(ctx, R, A, site, tags, eig_truth=None, pow2=0):
 def _spectrum(spec, ctx, R):
     rng = gen.rng_for(spec["seed"], "c08spec", spec["idx"])
     n = 1 + spec["idx"] % spec["maxn"] if spec["idx"] % 3 else int(rng.integers(1, spec["maxn"] + 1))
+    n = spec.get("n", n)
+    if "n" in spec:
+        ctx.hit("size:ladder")
     e = _eigs(rng, spec["pat"], n)
     A, _ = refq.hermitian_with_eigs(rng, e)
     tags = truth_tags(e)
